@@ -15,6 +15,7 @@
  *  D4  every history of <= 4 messages over {undefined headers of length 1..6, SYST:ERR?, *CLS, two undefined units} on one
  *      context (static-heap build: info heap of every size 5..12).
  *  D6  "A <token> NL" for every token length 1..400 of 10 token shapes (long numbers, mnemonics, strings, blocks, lists).
+ *  D9  error queues of 127..300 entries filled and drained; messages of 255..70000 bytes streamed, flushed and parsed as one line.
  *  D8  every single-byte substitution and insertion (all 256 byte values) at every position of 16 well-formed messages.
  *  D7  "A <literal> NL" for 12312 decimal literals that round at the 6th/15th digit when echoed (nines runs, 1000..1, 1999..).
  *  D5  "A " + every string of length <= 5 over 11 token-forming bytes (blocks, strings, expressions, lists) in exactly
@@ -402,6 +403,59 @@ int main(int argc, char ** argv) {
                 if (n_handler != h0) n_nontrivial++;
                 { uint64_t hh = ((uint64_t) (n_handler - h0) << 20) ^ ((uint64_t) ctx.registers[SCPI_REG_ESR] << 40) ^ (uint64_t) bi; mc_outcome(mc_hash(&hh, 8, 1)); }
             }
+        }
+    }
+    /* ---- D9: sizes at and beyond the limits of 8- and 16-bit counters: an error queue of 129 / 200 / 300 entries filled to the brim by
+     *      undefined headers and read back; messages of 255..70000 bytes in an input buffer that holds them, streamed in chunks of
+     *      1000 bytes and flushed, and handed to SCPI_Parse as one line ---- */
+    {
+        static const int qsizes[] = {127, 128, 129, 200, 256, 257, 300};
+        static const int msizes[] = {255, 256, 257, 511, 512, 700, 32767, 32768, 40000, 65535, 65536, 70000};
+        int qi, mi;
+        for (qi = 0; qi < 7; qi++) {
+            int q = qsizes[qi], k;
+            scpi_error_t * ring; char * ib;
+            if (!MC_CASE()) continue;
+            mc_case_tag = "D9-large-queue"; mc_case_i[0] = q;
+            ring = (scpi_error_t *) malloc(sizeof (scpi_error_t) * (size_t) q); memset(ring, 0, sizeof (scpi_error_t) * (size_t) q);
+            ib = (char *) malloc(32);
+            SCPI_Init(&ctx, cmds, &itf, scpi_units_def, "a", NULL, "c", "d", ib, 32, ring, (int16_t) q);
+#if USE_DEVICE_DEPENDENT_ERROR_INFORMATION && !USE_MEMORY_ALLOCATION_FREE
+            SCPI_InitHeap(&ctx, iheap, 9);
+#endif
+            for (k = 0; k < q + 3; k++) { char m[16]; int ml = sprintf(m, "Z%d\n", k); feed((const unsigned char *) m, ml); }
+            for (k = 0; k < q + 3; k++) feed((const unsigned char *) "SYST:ERR?\n", 10);
+            SCPI_ErrorClear(&ctx);
+            ASAN_UNPOISON_MEMORY_REGION(ib, 32);
+            free(ib); free(ring);
+            fresh(ibufs[8], 8);
+            n_nontrivial++;
+        }
+        for (mi = 0; mi < 12; mi++) {
+            int total = msizes[mi], o = 0, off;
+            unsigned char * msg; char * ib;
+            if (!MC_CASE()) continue;
+            mc_case_tag = "D9-long-message"; mc_case_i[0] = total;
+            msg = (unsigned char *) malloc((size_t) total + 1);
+            while (o + 6 <= total - 4) { memcpy(msg + o, o % 3 == 0 ? "E 1 ; " : o % 3 == 1 ? "A:A;  " : "*A?  ;", 6); o += 6; }
+            while (o < total - 1) msg[o++] = ' ';
+            msg[o++] = '\n'; msg[o] = 0;
+            ib = (char *) malloc((size_t) total + 8);
+            h0 = n_handler; typed_mode = 1;
+            fresh(ib, (size_t) total + 8);
+            for (off = 0; off < total; off += 1000) feed(msg + off, total - off < 1000 ? total - off : 1000);
+            feed(msg, 0);
+            fresh(ib, (size_t) total + 8);
+            feed(msg, total - 1); feed(msg, 0);           /* without the terminator: executed by the flush */
+            SCPI_ErrorClear(&ctx);
+            { char * line = (char *) malloc((size_t) total + 1); memcpy(line, msg, (size_t) total + 1); fresh(ib, (size_t) total + 8); SCPI_Parse(&ctx, line, total); n_inputs++; free(line); }
+            SCPI_ErrorClear(&ctx);
+            typed_mode = 0;
+            if (n_handler - h0 < (unsigned long long) (total / 8)) mc_viol("c01/long-message-not-executed", "message of %d bytes (units of 6 bytes): only %llu handler invocations in three deliveries", total, n_handler - h0);
+            ASAN_UNPOISON_MEMORY_REGION(ib, (size_t) total + 8);
+            free(ib); free(msg);
+            fresh(ibufs[8], 8);
+            n_nontrivial++;
         }
     }
 #if USE_DEVICE_DEPENDENT_ERROR_INFORMATION
